@@ -363,6 +363,8 @@ impl Search {
 
         #[cfg(rce_verif)]
         crate::verif::before_probe();
+        #[cfg(rce_verif)]
+        let verif_probe = crate::verif::probe(self.board.zkey, depth, alpha, beta, self.info.depth);
         // Check if we have more information in the TTable than we have already reached in this search
         if let Some(entry) = TRANSPOSITION_TABLE
             .read()
@@ -380,6 +382,10 @@ impl Search {
                     return entry.score;
                 }
             }
+        }
+        #[cfg(rce_verif)]
+        if verif_probe {
+            crate::verif::probed(alpha, beta, self.info.depth);
         }
 
         // Get out of check before entering quiescence
